@@ -99,7 +99,11 @@ func (in *Interp) unsupported(format string, a ...any) {
 }
 
 func (in *Interp) inconclusive(format string, a ...any) {
-	panic(pathAbort{"inconclusive", fmt.Sprintf(format, a...)})
+	msg := fmt.Sprintf(format, a...)
+	if in.curFr != nil {
+		msg += " [in " + in.curFr.fn.String() + "]"
+	}
+	panic(pathAbort{"inconclusive", msg})
 }
 
 // goPanic raises a Go run-time panic in the interpreted program.
